@@ -41,18 +41,18 @@ impl PathComponent {
 
 /// Check if a key can use dot notation.
 fn can_use_dot_notation(key: &str) -> bool {
-    if key.is_empty() {
-        return false;
-    }
-
+    // Same rule as `json::locate`: dot notation only for ASCII identifiers that are
+    // not reserved words, so the expression reads back in every jq-family parser.
+    const RESERVED: &[&str] = &[
+        "and", "as", "catch", "def", "elif", "else", "end", "foreach", "if", "import", "include",
+        "label", "or", "reduce", "then", "try", "__loc__",
+    ];
     let mut chars = key.chars();
-    let first = chars.next().unwrap();
-
-    if !first.is_alphabetic() && first != '_' {
-        return false;
+    match chars.next() {
+        Some(c) if c.is_ascii_alphabetic() || c == '_' => {}
+        _ => return false,
     }
-
-    chars.all(|c| c.is_alphanumeric() || c == '_')
+    chars.all(|c| c.is_ascii_alphanumeric() || c == '_') && !RESERVED.contains(&key)
 }
 
 /// Escape a string for use in bracket notation.
